@@ -16,7 +16,7 @@ for d in sorted(os.listdir("/verif/seeded")):
             caught.append(k["check"] + (" (obligation)" if k.get("no_failing_input_found") else ""))
     needs = (m.get("needs") or m.get("summary") or "").replace("\n", " ").replace("|", "/")
     if len(needs) > 170: needs = needs[:167] + "…"
-    rows.append((d, m.get("round", 1), ", ".join(files), needs, ", ".join(caught) or "NOT CAUGHT", c.get("own_check_first_run", "caught")))
+    rows.append((d, m.get("round", 1), ", ".join(files), needs, ", ".join(caught) or ("not claimed" if m.get("claimed") is False else "NOT CAUGHT"), c.get("own_check_first_run", "caught")))
 print("| id | round | files changed | needs, to manifest | reported by (final) | own check, first run |")
 print("|----|-------|---------------|--------------------|---------------------|----------------------|")
 for r in rows:
